@@ -22,6 +22,9 @@ def _gen(seed, index, profile):
     # the scenario stream stays what it was)
     if g.contextual and random.Random("%s/int/%s/%s" % (seed, profile.get("name", ""), index)).random() < 0.2:
         g.cfg["int_ctx"] = True
+    # ... and a sixth pass decisions / rewards as pandas Series and contexts as a DataFrame (both sides of a relation alike)
+    if random.Random("%s/pd/%s/%s" % (seed, profile.get("name", ""), index)).random() < 0.16:
+        g.cfg["as_pandas"] = True
     # a quarter of the neighbourhood-policy scenarios run with several (thread) workers: both sides of a relation
     # use the same configuration, and results do not depend on n_jobs (C05).  TreeBandit with randomised leaf policies
     # is excluded: its workers share the bandit's generator (known finding K3), so thread timing would leak in.
@@ -453,10 +456,31 @@ def gen_c17(seed, index):
         scn = g.build()
         scn["ops"] = first + [o for o in scn["ops"] if not o.get("bad")]
         return scn
+    if index % 25 == 13:
+        # pandas containers; a partial_fit rejected from inside training whose contexts have another number of columns
+        # (one column against several, or several against one), then *Series* queries: the facade tells "one row of d
+        # features" from "d rows of one feature" by what the bandit was trained with, and a rejected call is no training
+        rng, g = _gen(seed, index, SERIES_PROFILE)
+        g.cfg["as_pandas"] = True
+        g.op_train("fit")
+        for _ in range(rng.choice([0, 1])):
+            g.op_train("pfit")
+        d, r, _c = g.batch(rng.choice([1, 2, 4]), allow_unknown=False)
+        w = 1 if g.d > 1 else rng.choice([2, 3])
+        g.ops.append({"op": "pfit", "d": d, "r": r, "c": [[float(rng.randint(0, 4)) for _ in range(w)] for _ in d],
+                      "bad": "width"})
+        for _ in range(3):
+            rows = g.query_rows(1 if g.d > 1 else rng.choice([2, 3, 5]))
+            g.ops.append({"op": rng.choice(["pexp", "pred"]), "c": rows})
+        g.op_train("pfit")
+        g.op_query()
+        return {"cfg": g.cfg, "ops": g.ops}
     rng, g = _gen(seed, index, BAD_PROFILE)
     scn = g.build()
     return scn
 
+
+SERIES_PROFILE = dict(BAD_PROFILE, name="C17p", np=["radius", "knn", "lsh"], allow_scale=False)
 
 SCALED_BAD_PROFILE = {"name": "C17s", "lp": list(G.LIN_KINDS), "np": [None],
                       "weights": {"fit": 1, "pfit": 3, "query": 3, "add": 2, "rem": 0.7, "warm": 0.3, "bad": 4},
@@ -667,7 +691,7 @@ def fit_task_orders(scn):
 
 # ------------------------------------------------------------------ C13 warm start laws
 
-WARM_PROFILE = {"name": "C13", "allow_scale": True, "lp": list(G.WARM_OK), "np": [None], "n_arms": [2, 3, 4, 5, 5],
+WARM_PROFILE = {"name": "C13", "allow_scale": True, "warm_readd": True, "lp": list(G.WARM_OK), "np": [None], "n_arms": [2, 3, 4, 5, 5],
                 "weights": {"fit": 1, "pfit": 3, "query": 2, "add": 2.5, "rem": 0.7, "warm": 3}, "n_ops": (4, 11)}
 
 
@@ -1291,7 +1315,7 @@ def is_k1(scn, reason):
 
 # ------------------------------------------------------------------ C20 invariance to arm names, row order, reward shift / scale
 
-RELABEL = {"int": lambda i: 100 + 3 * i, "str": lambda i: chr(97 + i) * (1 + (i * 2) % 5), "float": lambda i: 0.25 + 1.5 * i}
+RELABEL = {"int": lambda i: 100 + 3 * i, "str": lambda i: chr(97 + i) * (1 + i), "float": lambda i: 0.25 + 1.5 * i}
 
 
 def gen_c20(seed, index):
@@ -1812,7 +1836,16 @@ def gen_c18(seed, index):
             if not first and rng.random() < 0.7:
                 op["c"] = [[x + rng.choice([0.0, 0.5]) for x in row] for row in op["c"]]
             first = False
-    scn["variant"] = rng.choice(["ndarray", "ndarray_f", "ndarray_int", "pandas", "noncontig", "ndarray"])
+    scn["variant"] = rng.choice(["ndarray", "ndarray_f", "ndarray_int", "pandas", "noncontig", "ndarray", "pandas"])
+    # string labels: now and then the first training batch names only the shortest labels, so that a longer label
+    # arrives later (fixed-width string arrays must not truncate it, whatever the container)
+    arms = scn["cfg"]["arms"]
+    if isinstance(arms[0], str) and len({len(a) for a in arms}) > 1 and rng.random() < 0.5:
+        short = [a for a in arms if len(a) == min(len(x) for x in arms)]
+        for op in scn["ops"]:
+            if op["op"] in ("fit", "pfit"):
+                op["d"] = [x if (isinstance(x, str) and len(x) == len(short[0])) else rng.choice(short) for x in op["d"]]
+                break
     return scn
 
 
